@@ -11,7 +11,7 @@
      copy_pre  = both buffers are large enough for the addressed ranges, allocations < 2^61 bytes
      buf_pre   = size <= allocation, allocation < 2^61 bytes, offset is a size_t, bytes < 256. *)
 From Verif Require Import Bits CPrims CPrimsThm F16 F16Thm F16ArithThm CppPrims CppPrimsThm CppPrimsMoreThm PyPrims PyPrimsThm PyPrimsMoreThm PyPrimsStdThm PyPrimsBitsThm PyPrimsForkThm PrimsExt PrimsExtThm
-  CPrimsW CPrimsWThm F16FlocqDefs F16Flocq PyComposeThm CppComposeThm Gen_Pin_c14py.
+  CPrimsW CPrimsWThm F16FlocqDefs F16Flocq PyComposeThm CppComposeThm Gen_Pin_c14py Gen_Pin_c14c PyPrimsChk PyPrimsChkThm.
 Open Scope N_scope.
 
 (* ---------------------------------------------------------------------------------------------
@@ -303,6 +303,23 @@ Theorem C14_cpp_members_are_c :
     buf_pre (sp_data s) (sp_size s) (sp_off s) = true.
 Proof. exact cpp_members_are_c_b. Qed.
 Print Assumptions C14_cpp_members_are_c.
+
+(* C++ setUxx / setIxx at EVERY offset and length (no premise `offset + length < 2^64`): equal to the C function, which reports a
+   too-small buffer exactly when size*8 < offset + length (natural-number sum) and otherwise stores min(length, 64) bits *)
+Theorem C14_cpp_set_uxx_every_offset :
+  forall s : span,
+    span_okb s = true ->
+    (forall value len,
+       cpp_set_uxx s value len = set_uxx false (sp_data s) (sp_size s) (sp_off s) value len /\
+       if sp_size s * 8 <? sp_off s + len
+       then cpp_set_uxx s value len = Some (inr TooSmall)
+       else exists r, cpp_set_uxx s value len = Some (inl r) /\ length r = length (sp_data s) /\
+              forall p, bit r p = if (sp_off s <=? p) && (p <? sp_off s + N.min len 64)
+                                  then N.testbit (value mod 2 ^ 64) (p - sp_off s) else bit (sp_data s) p) /\
+    (forall (value : Z) len,
+       cpp_set_ixx s value len = set_ixx false (sp_data s) (sp_size s) (sp_off s) value len).
+Proof. exact cpp_set_uxx_every_offset_b. Qed.
+Print Assumptions C14_cpp_set_uxx_every_offset.
 
 
 (* Python Serializer: new; invariant preserved; every add method appends exactly the bits of its argument; pad_to_alignment *)
@@ -721,10 +738,11 @@ Print Assumptions C14_py_cursor_sequences.
 
 (* Sequences of cursor operations on a C++ bitspan (setUxx + add_offset, setZeros + add_offset, padAndMoveToAlignment): if no
    member reports an error, the span stays well formed, the cursor only moves forward (by at most the requested lengths) and every
-   bit before the old cursor and at or after the new one is untouched.  Domain: the cursor stays below 2^64. *)
+   bit before the old cursor and at or after the new one is untouched.  No premise on the cursor: that it stays below 2^64 follows
+   from success (saturating capacity tests); cpp_op_ok only states the argument types (size_t length, uint8_t alignment >= 1). *)
 Theorem C14_cpp_cursor_sequences :
   forall (ops : list cpp_op) (s s' : span),
-    span_ok s -> bytes_ok (sp_data s) -> Forall cpp_op_ok ops -> sp_off s + total_span ops < two64 ->
+    span_ok s -> bytes_ok (sp_data s) -> Forall cpp_op_ok ops ->
     cpp_run ops s = Some s' ->
     sp_size s' = sp_size s /\ length (sp_data s') = length (sp_data s) /\ bytes_ok (sp_data s') /\ span_ok s' /\
     sp_off s <= sp_off s' <= sp_off s + total_span ops /\
@@ -738,8 +756,17 @@ Print Assumptions C14_cpp_cursor_sequences.
 (* The hand model of the Python support module is valid for ONE shape of each method: tools/translators/gen_c14.py writes
    Generated/Gen_Pin_c14py.v from /repo on every run; `pin_c14py_ok` is only defined when the normalised AST (comments,
    annotations, docstrings dropped, locals alpha-renamed) of all 84 modelled methods of Serializer / Deserializer /
-   ZeroExtendingBuffer (incl. _unsigned_to_bytes, _unsigned_from_bytes, the signed wrappers) equals tools/translators/pins/c14py.txt. *)
+   ZeroExtendingBuffer (incl. _unsigned_to_bytes, _unsigned_from_bytes, the signed wrappers) equals tools/translators/pins/c14py.txt (current text) or pins/c14py_patched.txt (with design_notes/C14_py_too_small_fix.patch). *)
 Example C14_py_support_shape_pinned : pin_c14py_ok = true.
+Proof. reflexivity. Qed.
+
+(* The hand models of the C header (CPrims.v, CPrimsW.v, F16.v) and of the C++ header (CppPrims.v, PrimsExt.v) are valid for ONE
+   token stream of each function: tools/translators/gen_c14.py renders serialization.h / serialization.hpp from /repo on every run
+   for every Jinja branch (target_endianness any|little|big x enable_serialization_asserts x omit_float_serialization_support; C++
+   also for the standards c++14, c++17, c++17-pmr, cetl++14-17, c++20), drops comments and white space, cuts the token stream into
+   function definitions (+ one file-scope remainder, so every token is covered) and defines `pin_c14c_ok` only when each stream
+   equals tools/translators/pins/c14c.txt. *)
+Example C14_c_cpp_support_token_streams_pinned : pin_c14c_ok = true.
 Proof. reflexivity. Qed.
 
 (* The truncation contract of the Python unsigned writers: for EVERY natural value (also values wider than the field) and every
@@ -760,3 +787,74 @@ Theorem C14_py_unsigned_truncation :
                  else add_unaligned_unsigned s (value mod 2 ^ bits) bits) = Some s').
 Proof. split; [exact unsigned_to_bytes_spec|exact unsigned_writers_truncate]. Qed.
 Print Assumptions C14_py_unsigned_truncation.
+
+(* =============================================================================================
+   Round 7: "reports a too-small buffer instead of overrunning it" x Python Serializer. *)
+
+(* The text currently in /repo does NOT: a one-byte aligned slice write with the cursor at the end of the buffer stores nothing,
+   raises nothing and advances the cursor (NumPy broadcasts a length-1 source into the empty slice).  Witness: 3-byte buffer,
+   cursor 24.  Reproduced on the rendered module; known finding F-PY-SER-SILENT-DROP. *)
+Theorem C14_py_one_byte_at_end_refuted :
+  exists s, Inv s /\ bytes_ok (s_buf s) /\ s_off s mod 8 = 0 /\ blen (s_buf s) < s_off s / 8 + 1 /\
+    add_aligned_bytes s [119] = Some (mkser (s_buf s) (s_off s + 8)) /\
+    add_aligned_unsigned s 5 3 = Some (mkser (s_buf s) (s_off s + 3)) /\
+    add_aligned_array_of_bits s [true; false; true] = Some (mkser (s_buf s) (s_off s + 3)).
+Proof. exact py_one_byte_at_end_refuted. Qed.
+Print Assumptions C14_py_one_byte_at_end_refuted.
+
+(* the strongest true statements about the current text: slice sources of two or more bytes that do not fit raise; the
+   single-element stores (add_aligned_u8, add_unaligned_bit) are total: room -> the bits land, no room -> the error, nothing stored *)
+Theorem C14_py_too_small_partial :
+  (forall s x, s_off s mod 8 = 0 -> blen (s_buf s) < s_off s / 8 + blen x -> 2 <= blen x -> add_aligned_bytes s x = None) /\
+  (forall s x, Inv s -> bytes_ok (s_buf s) -> x <= 255 -> s_off s mod 8 = 0 ->
+     if s_off s / 8 <? blen (s_buf s)
+     then exists s', add_aligned_u8 s x = Some s' /\ appended s s' 8 (N.testbit x) else add_aligned_u8 s x = None) /\
+  (forall s x, Inv s -> bytes_ok (s_buf s) ->
+     if s_off s / 8 <? blen (s_buf s)
+     then exists s', add_unaligned_bit s x = Some s' /\ appended s s' 1 (fun _ => x) else add_unaligned_bit s x = None).
+Proof. split; [exact py_current_too_small_partial|split; [exact add_aligned_u8_total|exact add_unaligned_bit_total]]. Qed.
+Print Assumptions C14_py_too_small_partial.
+
+(* With the up-front capacity test of design_notes/C14_py_too_small_fix.patch (Prims/PyPrimsChk.v: guard on the initial state, then
+   the unchanged body) EVERY writer is total, for every cursor, length, value and buffer size: either there is room and exactly the
+   value's bits are appended, or the test fails and the error is raised before anything is stored.  Inside the capacity the patched
+   and the current text are the same function. *)
+Theorem C14_py_too_small_reported :
+  (forall s x, Inv s -> bytes_ok (s_buf s) -> bytes_ok x -> s_off s mod 8 = 0 ->
+     if s_off s / 8 + blen x <=? blen (s_buf s)
+     then exists s', add_aligned_bytes_chk s x = Some s' /\ appended s s' (8 * blen x) (bit x) else add_aligned_bytes_chk s x = None) /\
+  (forall s value bits, Inv s -> bytes_ok (s_buf s) -> 1 <= bits -> s_off s mod 8 = 0 ->
+     if s_off s / 8 + (bits + 7) / 8 <=? blen (s_buf s)
+     then exists s', add_aligned_unsigned_chk s value bits = Some s' /\ appended s s' bits (N.testbit (value mod 2 ^ bits))
+     else add_aligned_unsigned_chk s value bits = None) /\
+  (forall s x, Inv s -> bytes_ok (s_buf s) -> s_off s mod 8 = 0 ->
+     if s_off s / 8 + (N.of_nat (length x) + 7) / 8 <=? blen (s_buf s)
+     then exists s', add_aligned_array_of_bits_chk s x = Some s' /\ appended s s' (N.of_nat (length x)) (nthb x)
+     else add_aligned_array_of_bits_chk s x = None) /\
+  (forall s x, Inv s -> bytes_ok (s_buf s) -> s_off s mod 8 = 0 ->
+     (if s_off s / 8 + 2 <=? blen (s_buf s)
+      then exists s', add_aligned_u16_chk s x = Some s' /\ appended s s' 16 (N.testbit x) else add_aligned_u16_chk s x = None) /\
+     (if s_off s / 8 + 4 <=? blen (s_buf s)
+      then exists s', add_aligned_u32_chk s x = Some s' /\ appended s s' 32 (N.testbit x) else add_aligned_u32_chk s x = None) /\
+     (if s_off s / 8 + 8 <=? blen (s_buf s)
+      then exists s', add_aligned_u64_chk s x = Some s' /\ appended s s' 64 (N.testbit x) else add_aligned_u64_chk s x = None)) /\
+  (forall s value, Inv s -> bytes_ok (s_buf s) -> bytes_ok value ->
+     if (blen value =? 0) || (s_off s / 8 + (blen value + 1) <=? blen (s_buf s))
+     then exists s', add_unaligned_bytes_chk s value = Some s' /\ appended s s' (8 * blen value) (bit value)
+     else add_unaligned_bytes_chk s value = None) /\
+  (forall s value bits, Inv s -> bytes_ok (s_buf s) -> 1 <= bits ->
+     if s_off s / 8 + ((bits + 7) / 8 + 1) <=? blen (s_buf s)
+     then exists s', add_unaligned_unsigned_chk s value bits = Some s' /\ appended s s' bits (N.testbit (value mod 2 ^ bits))
+     else add_unaligned_unsigned_chk s value bits = None) /\
+  (forall s x value bits,
+     (s_off s mod 8 = 0 -> s_off s / 8 + blen x <= blen (s_buf s) -> add_aligned_bytes_chk s x = add_aligned_bytes s x) /\
+     (x <> [] -> s_off s / 8 + blen x < blen (s_buf s) -> add_unaligned_bytes_chk s x = add_unaligned_bytes s x) /\
+     (s_off s / 8 + 8 <= blen (s_buf s) -> add_aligned_u64_chk s value = add_aligned_u64 s value) /\
+     (1 <= bits -> s_off s mod 8 = 0 -> s_off s / 8 + (bits + 7) / 8 <= blen (s_buf s) ->
+      add_aligned_unsigned_chk s value bits = add_aligned_unsigned s value bits)).
+Proof.
+  split; [exact add_aligned_bytes_chk_total|]. split; [exact add_aligned_unsigned_chk_total|].
+  split; [exact add_aligned_array_of_bits_chk_total|]. split; [exact add_aligned_u16_u32_u64_chk_total|].
+  split; [exact add_unaligned_bytes_chk_total|]. split; [exact add_unaligned_unsigned_chk_total|exact chk_is_current_within_capacity].
+Qed.
+Print Assumptions C14_py_too_small_reported.
